@@ -174,3 +174,62 @@ def reach(a: str, b: str) -> bool:
     """
     STUB.items = [EPRE + a + ESUF, EPRE + b]
     return len(_with_stub(lambda: Sid(SID).children())) == 0
+
+
+def sid_laws_after_change(a: str) -> bool:
+    """
+    With spil's caches ON: siblings() / children() / exists(), then an entity EPRE+a+ESUF is created, then again: the later answers
+    reflect the change.
+    pre: 1 <= len(a) <= N
+    pre: ':' not in a and '?' not in a and '*' not in a and '>' not in a and '<' not in a and ',' not in a and '/' not in a
+    post: _
+    """
+    env.clear_caches()
+    sid = Sid(SID)
+    new = EPRE + a + ESUF
+    if typing_ref.type_string(new)[0] == "" or new == FIXED or new.split("/")[-1] in conf.extension_alias:
+        return True
+    STUB.items = [FIXED] if FIXED else []
+    s1 = [str(x) for x in _with_stub(lambda: sid.siblings())]
+    k1 = [str(x) for x in _with_stub(lambda: sid.children())]
+    e1 = _with_stub(lambda: Sid(new).exists())
+    if e1:
+        return fail("exists-before-creation")
+    STUB.items = ([FIXED] if FIXED else []) + [new]
+    s2 = [str(x) for x in _with_stub(lambda: sid.siblings())]
+    k2 = [str(x) for x in _with_stub(lambda: sid.children())]
+    e2 = _with_stub(lambda: Sid(new).exists())
+    if not e2:
+        return fail("exists-does-not-reflect-creation")
+    parent = "/".join(SID.split("/")[:-1])
+    is_sib = "/".join(new.split("/")[:-1]) == parent and len(new.split("/")) == len(SID.split("/"))
+    is_kid = "/".join(new.split("/")[:-1]) == SID
+    if is_sib and new not in s2:
+        return fail("siblings-stale-after-creation")
+    if is_kid and new not in k2 and sid.keytype != conf.leaf_keys.get(sid.basetype):
+        return fail("children-stale-after-creation")
+    return True
+
+
+def finder_sidobject(a: str, n: int) -> bool:
+    """
+    The search handed over as a Sid OBJECT (typed, not a search; VF_SEARCH, e.g. one ending in an extension alias):
+    find_one is still the first element of find, exists <=> something found, for a do_find yielding the first n of [PRE+a, 'h/a/x'].
+    pre: 1 <= len(a) <= N and 0 <= n <= 2
+    pre: ':' not in a and '?' not in a
+    post: _
+    """
+    items = [PRE + a, "h/a/x"][:n]
+    f = _Yield(items)
+    so = Sid(SEARCH)
+    one = f.find_one(so, as_sid=True)
+    if items:
+        if str(one) != items[0] or one != Sid(items[0]):
+            return fail("find_one-sid-object-not-first")
+    elif one:
+        return fail("find_one-sid-object-on-empty")
+    if f.exists(so) != (len(items) > 0):
+        return fail("exists-sid-object-vs-find")
+    if [str(x) for x in f.find(so, as_sid=True)] != items:
+        return fail("find-sid-object-differs-from-do_find")
+    return True
